@@ -143,13 +143,12 @@ inductive Outcome
 `rcontext['__error__']` records, through `create_formatted_exception` (which cannot mix `RenderError`
 into `Exception`/`BaseException` themselves, and — after the D-12a fix — leaves everything outside the
 `Exception` hierarchy alone) -/
-def errorRecords (cfg : ECfg) (body : Str) (ex : Exc) (token : Option (Nat × Nat)) : List ErrorOut :=
+def errorRecords (cfg : ECfg) (body : Str) (ex : Exc) (token : Option (Nat × Nat)) (inner : List (Nat × Nat) := []) : List ErrorOut :=
   if ex.cls == "Exception" || ex.cls == "BaseException" || !isSubclass cfg ex.cls ["Exception"] then [] else
-    match token with
-    | some (pos, len) =>
+    -- records of the macro functions the exception passed through (innermost first), then the render function's own
+    (inner ++ (match token with | some t => [t] | none => [])).map (fun (pos, len) =>
       let (l, c) := Tok.location body { str := [], pos := pos }
-      [{ text := (body.drop pos).take len, line := l, col := c }]
-    | none => []
+      { text := (body.drop pos).take len, line := l, col := c })
 
 /-- the compiler's pass over the program: macros in definition order, then the template body -/
 def compileCheck (tc : TCfg) (strict : Bool) (fuel : Nat) (macros : List (Str × Node)) (node : Node) : CRes Unit := do
@@ -183,7 +182,7 @@ def render (r : RenderReq) : Outcome :=
     | .ok () =>
       let cfg : ECfg := { tc := tc, tab := r.tab, pyBuiltins := r.pyBuiltins, talesExc := r.talesExc,
                           existsExc := r.existsExc, excParents := r.excParents, booleanAttrs := booleans,
-                          src := body }
+                          src := body, macros := macros }
       let env0 : Env := { own := r.vars ++ [(lit "repeat", .repeatDict), (lit "target_language", .none)],
                           root := [], rcontext := [], repeats := [], frames := [{}] }
       let init : RState := { streams := [[]], env := env0, x := {}, handled := 0 }
@@ -192,7 +191,7 @@ def render (r : RenderReq) : Outcome :=
       | .unsupported w => .unsupported w
       | .raised ex s =>
         -- the render function's handler records tokens[__token]
-        let errs := errorRecords cfg body ex s.x.token
+        let errs := errorRecords cfg body ex s.x.token s.errs.toList
         .raised ex errs s.x.log s.x.tlog
 
 end ChamVerif
